@@ -51,7 +51,31 @@ Definition sched_entry (args : list sx) : sx :=
   | _ => bad_args
   end.
 
-Definition table : list entry := [ E "sched" sched_entry ].
+(* any number of threads: schedn((cells_0 ...), (kind_0 ...), (tid ...), shared) -> (outcome_0 ...);
+   thread i runs kind_i on its own compiler i (workbook cells_i) *)
+Definition dec_cells (x : sx) : option (list cellspec) :=
+  match x with SL ca => C06.dec_list C06.dec_cell ca | _ => None end.
+Definition schedn_entry (args : list sx) : sx :=
+  match args with
+  | [SL cs; SL ks; SL sc; SZ shared] =>
+      match C06.dec_list dec_cells cs, C06.dec_list dec_kind ks, C06.dec_list C06.dec_nat sc with
+      | Some cs, Some ks, Some sc =>
+          let wbs := map (fun c => {| w_cells := c; w_ranges := [] |}) cs in
+          let wb0 := {| w_cells := []; w_ranges := [] |} in
+          let cf := {| c_wb := fun t => nth t wbs wb0;
+                       c_comp := fun t => t;
+                       c_ns := fun t => if (shared =? 0)%Z then t else O |} in
+          let G := {| g_m := fun t => start (nth t ks (KBuild 0));
+                      g_ns := fun _ => absent;
+                      g_k := fun t => init_comp (nth t wbs wb0) |} in
+          let G' := run cf sc G in
+          SL (map (fun t => enc_mach (g_m G' t)) (seq 0 (List.length ks)))
+      | _, _, _ => bad_args
+      end
+  | _ => bad_args
+  end.
+
+Definition table : list entry := [ E "sched" sched_entry; E "schedn" schedn_entry ].
 
 Definition dispatch (name : list Z) (args : list sx) : sx :=
   match lookup table name with
